@@ -301,7 +301,7 @@ impl Prop for C11 {
     fn plan(&self, tier: Tier) -> Plan {
         let mut p = Plan::new(match tier {
             Tier::Quick => 6000,
-            Tier::Thorough => 25_000,
+            Tier::Thorough => 60_000,
         });
         p.workers = 12;
         p
